@@ -49,7 +49,7 @@ def main():
     pid, wt, patch, demo, target = sys.argv[1:6]
     runre = sys.argv[6] if len(sys.argv) > 6 else ""
     res = {"property": pid, "patch": patch}
-    run("git checkout -- . && git clean -fdq -e _out -e _out2 -e _out3 -e _out4 -e _out5", wt)
+    run("git checkout -- . && git clean -fdq -e _out -e _out2 -e _out3 -e _out4 -e _out5 -e _out7", wt)
     pkgs = touched(patch)
     before = passing(wt, pkgs)
     dst = os.path.join(wt, target, os.path.basename(demo))
@@ -91,7 +91,7 @@ def main():
         shutil.rmtree(dst, ignore_errors=True)
     after = passing(wt, pkgs)
     res["existing_tests"] = "go test -count=1 %s: %d tests pass unchanged, %d with the patch, lost: %s" % (" ".join(pkgs), len(before), len(after), sorted(before - after) or "none")
-    run("git checkout -- . && git clean -fdq -e _out -e _out2 -e _out3 -e _out4 -e _out5", wt)
+    run("git checkout -- . && git clean -fdq -e _out -e _out2 -e _out3 -e _out4 -e _out5 -e _out7", wt)
     print(json.dumps(res, indent=1))
 
 
